@@ -137,15 +137,22 @@ fn encode_nibble(c: u8) -> u8 {
 
 pub fn decode_hex(data: &[u8]) -> Result<Vec<u8>> {
     let mut out = Vec::with_capacity(data.len() / 2);
-    let pairs = data.iter().cloned()
+    let mut pairs = data.iter().cloned()
         .take_while(|&b| b != b'>')
         .filter(|&b| !matches!(b, 0 | 9 | 10 | 12 | 13 | 32))
         .tuples();
-    for (i, (high, low)) in pairs.enumerate() {
+    for (i, (high, low)) in pairs.by_ref().enumerate() {
         if let (Some(low), Some(high)) = (decode_nibble(low), decode_nibble(high)) {
             out.push(high << 4 | low);
         } else {
             return Err(PdfError::HexDecode {pos: i * 2, bytes: [high, low]})
+        }
+    }
+    // an odd number of digits: behave as if a 0 followed the last digit
+    if let Some(high) = pairs.into_buffer().next() {
+        match decode_nibble(high) {
+            Some(high) => out.push(high << 4),
+            None => return Err(PdfError::HexDecode {pos: out.len() * 2, bytes: [high, b'0']})
         }
     }
     Ok(out)
